@@ -33,8 +33,8 @@ ATTR_FAMS = [f for f in FAMILIES if f.attr]
 OLD_SHAPES = [D1[0], D1[1], D1[3], D1[6]]  # leaf, null, {p}, [x]
 NEW_SHAPES = [s for s in D2 if isinstance(s[1], (dict, list)) and s[1] not in ({}, [])] + [("{}", {}), ("[]", [])]
 HOWS = {
-    "dict": ["outside-reload", "second-object", "setitem", "setitem_new", "update_map", "update_kwargs", "setdefault_new", "reset", "ctor-data", "buffered-setitem", "update_pairs"],
-    "list": ["outside-reload", "second-object", "setitem", "setslice", "append", "extend", "insert", "iadd", "reset", "ctor-data", "buffered-setitem"],
+    "dict": ["outside-reload", "second-object", "setitem", "setitem_new", "update_map", "update_kwargs", "setdefault_new", "reset", "ctor-data", "buffered-setitem", "update_pairs", "setitem-synced"],
+    "list": ["outside-reload", "second-object", "setitem", "setslice", "append", "extend", "insert", "iadd", "reset", "ctor-data", "buffered-setitem", "setitem-synced"],
 }
 
 
@@ -93,6 +93,12 @@ def family(ok: int, nk: int, hw: int, x: int, x2: int) -> bool:
             other[pos] = copy_tree(V_new)
             ref[pos] = copy_tree(V_new)
             obj()
+        elif how == "setitem-synced":
+            # the value is a synced node taken from ANOTHER collection of the same family
+            fam.write(env, "src", {"c": copy_tree(V_new)})
+            src = fam.make(env, "dict", "src")
+            obj[pos] = src["c"]
+            ref[pos] = copy_tree(V_new)
         elif how == "setitem":
             obj[pos] = copy_tree(V_new)
             ref[pos] = copy_tree(V_new)
@@ -448,7 +454,7 @@ def plan(tier):
 def smoke(tier):
     out = []
     for part in range(len(PARTS)):
-        for hw in range(11):
+        for hw in range(12):
             out.append(("family", (hw % 4, (hw + part) % len(QUICK_NEW), hw, 1, 3), part, len(PARTS)))
     for part, (f, pos) in enumerate(attr_cells()):
         nk = len(key_sets(f.D))
